@@ -630,7 +630,22 @@ def u_sac_iteration(ctx):
 
     with _Spy() as spy:
         for i in range(ctx.n(12, 40)):
-            env = TimeLimit(_denv(ctx, "box"), int(ctx.rng.integers(2, 5)))
+            from vlib.mdp import FiniteMDP, random_tables
+
+            nS_, nA_, bd_ = (_SHAPES_Q if ctx.quick else _SHAPES_T)[int(ctx.rng.integers(0, len(_SHAPES_Q if ctx.quick else _SHAPES_T)))]
+            tb_ = random_tables(ctx.rng, nS_, nA_, p_term=0.3)
+            tl_ = int(ctx.rng.integers(2, 5))
+            if i % 3 == 0:
+                # a chain that reaches its terminal state exactly when the time limit expires: terminated AND truncated
+                L_ = int(ctx.rng.integers(1, min(4, nS_)))
+                tb_["P"] = np.minimum(np.arange(nS_)[:, None] + 1, nS_ - 1) * np.ones((1, nA_), int)
+                tb_["term"] = np.arange(nS_) == L_
+                tb_["starts"] = np.array([0])
+                tl_ = L_
+            # observation = one-hot state + episode clock: the true (terminated, truncated) of every stored
+            # transition can be recomputed from what the batch holds
+            env = TimeLimit(FiniteMDP(tb_["P"], tb_["R"], tb_["term"], tb_["starts"], kind="box", box_dim=bd_, low=-1.0, high=2.0,
+                                      obs_kind="onehot_t"), tl_)
             gamma = float(ctx.rng.choice([0.5, 0.9, 0.99]))
             alpha = float(ctx.rng.choice([0.05, 0.2, 1.0]))
             E, S = int(ctx.rng.integers(1, 3)), int(ctx.rng.integers(1, 3))
@@ -659,20 +674,34 @@ def u_sac_iteration(ctx):
 
             base = env.env
             ref = RefMDP(np.asarray(base.P), np.asarray(base.R), np.asarray(base.term), np.asarray(base.starts),
-                         kind="box", low=base.low, high=base.high)
+                         kind="box", low=base.low, high=base.high, time_limit=tl_)
             o_b, no_b, a_b = np.asarray(batch.observations), np.asarray(batch.next_observations), np.asarray(batch.actions)
             d_b, t_b = np.asarray(batch.dones, bool), np.asarray(batch.timeouts, bool)
+            nS0 = ref.nS
+            term_true = np.zeros(len(o_b), bool)
             for j in range(len(o_b)):
-                s_j = int(np.argmax(o_b[j]))
-                ns_j = int(ref.P[s_j, ref.a_index(ref.clip(a_b[j]))])
+                s_j, clock_j = int(np.argmax(o_b[j][:nS0])), int(round(float(o_b[j][nS0])))
+                ns_j, _r, te_j, tr_j = ref.step(s_j, clock_j, ref.clip(a_b[j]))
+                term_true[j] = te_j
                 ctx.monitor("sac_iteration_bootstrap_states_checked")
-                if d_b[j] and t_b[j]:
+                if tr_j and not te_j:
                     ctx.monitor("sac_iteration_truncated_bootstrap_states_checked")
-                if int(np.argmax(no_b[j])) != ns_j or float(np.max(no_b[j])) != 1.0:
+                if te_j and tr_j:
+                    ctx.monitor("sac_iteration_samples_terminated_and_truncated_at_once")
+                if int(np.argmax(no_b[j][:nS0])) != ns_j or int(round(float(no_b[j][nS0]))) != clock_j + 1:
                     ctx.violation("sac-iteration-target-bootstraps-from-a-state-that-is-not-the-successor",
-                                  {"s": s_j, "action": a_b[j], "true_successor": ns_j, "stored_next_obs": no_b[j],
+                                  {"s": s_j, "t": clock_j, "action": a_b[j], "true_successor": [ns_j, clock_j + 1], "stored_next_obs": no_b[j],
                                    "done": bool(d_b[j]), "timeout": bool(t_b[j]), "gamma": gamma})
                     break
+            else:
+                # end to end: the target of every sample, with the *true* termination of the transition it records
+                want_true = b["r"] + gamma * (1.0 - term_true) * (np.minimum(b["q1"], b["q2"]) - alpha * b["nlp"])
+                ctx.monitor("sac_iteration_targets_compared_with_true_terminations", len(o_b))
+                if gamma > 0 and np.max(np.abs(got - want_true)) > 1e-5 + 2e-4 * np.max(np.abs(want_true)):
+                    jw = int(np.argmax(np.abs(got - want_true)))
+                    ctx.violation("sac-iteration-target-bootstrap-mask-not-the-true-termination",
+                                  {"got": got[jw], "want": want_true[jw], "truly_terminated": bool(term_true[jw]),
+                                   "stored_done": bool(d_b[jw]), "stored_timeout": bool(t_b[jw]), "gamma": gamma})
             if np.max(np.abs(got - want)) > 1e-5 + 2e-4 * np.max(np.abs(want)):
                 alt, _ = sac_target_ref(pol, [st.qf1, st.qf2, st.qf1, st.qf2_target], batch, gamma, alpha)
                 alt2, _ = sac_target_ref(pol, [st.qf1, st.qf2, st.qf1, st.qf2], batch, gamma, alpha)
@@ -691,6 +720,7 @@ def u_sac_iteration(ctx):
                     ctx.violation("sac-iteration-target-critics-not-polyak-of-state-targets", {"net": nm, "err": err})
     ctx.require("sac_iteration_targets_observed", 3)
     ctx.require("sac_iteration_truncated_bootstrap_states_checked", 1)
+    ctx.require("sac_iteration_samples_terminated_and_truncated_at_once", 1)
 
 
 def run_unit(name, ctx):
